@@ -577,6 +577,10 @@ func (vc *VC) execTypeAssert(fr *Frame, st *State, pc string, t *ssa.TypeAssert,
 	if _, isIface := at.Underlying().(*types.Interface); isIface {
 		// interface-to-interface: succeeds iff non-nil (all bound implementations satisfy our interfaces)
 		okc = "(not (= " + x.S + " 0))"
+	} else if b := vc.eng.boundType(t.X.Type()); b != "" && b == types.TypeString(at, nil) {
+		// the interface is bound to this very type (`bind I = T`: every implementation the proxy creates is a T)
+		okc = "(not (= " + x.S + " 0))"
+		vc.trusted["interface "+t.X.Type().String()+" holds only "+b+" values (bind)"] = true
 	} else {
 		tag := vc.eng.typeTag(at)
 		okc = fmt.Sprintf("(and (not (= %s 0)) (= (dyntype %s) %d))", x.S, x.S, tag)
